@@ -1550,12 +1550,109 @@ class ParserTranslator:
         return "\n".join(out)
 
 
+class TableFn(ModFn):
+    """a function of common/two_local_generators.py: f-strings over arithmetic in n (token lists), `match n % k` with literal cases"""
+    def __init__(self, tr, node):
+        Fn.__init__(self, tr, None, node)
+        self.coq = "py_T_" + node.name.lstrip("_")
+        self.params = {}
+        for a in node.args.args:
+            if ast.unparse(a.annotation) != "int": bad(a, "parameter annotation")
+            self.params[a.arg] = Z
+        self.self_t = None
+
+    def expr_extra(self, e, env):
+        if isinstance(e, ast.BinOp) and isinstance(e.op, ast.Mod) and isinstance(e.right, ast.Constant) and isinstance(e.right.value, int) and e.right.value > 0:
+            a, ta, ga = self.expr(e.left, env)
+            if ta != Z: bad(e, "% of non-int")
+            return "(%s mod %d)" % (a, e.right.value), Z, ga
+        return None
+
+    def module_call(self, e):
+        if isinstance(e, ast.Call) and isinstance(e.func, ast.Name) and e.func.id in self.tr.fns and not e.keywords:
+            return self.tr.fns[e.func.id]
+        return None
+
+    def block(self, stmts, env, k):
+        if stmts and isinstance(stmts[0], ast.Match):
+            s, rest = stmts[0], stmts[1:]
+            c, t, g = self.expr(s.subject, env)
+            if t != Z or g: bad(s, "match subject must be an unguarded int")
+            def pattern(p):
+                if isinstance(p, ast.MatchValue) and isinstance(p.value, ast.Constant) and isinstance(p.value.value, int):
+                    return ["(subj_ =? %d)" % p.value.value]
+                if isinstance(p, ast.MatchOr):
+                    return [x for q in p.patterns for x in pattern(q)]
+                bad(p, "match pattern")
+            cont = self.block(rest, env, k)
+            term = "Next %s" % tup(self.state())
+            for case in reversed(s.cases):
+                if case.guard is not None: bad(case, "case guard")
+                term = "(if (%s) then %s else %s)" % (" || ".join(pattern(case.pattern)), self.block(case.body, env, None), term)
+            return "(let subj_ := %s in seqo %s (fun %s => %s))" % (c, term, pat(self.state()), cont)
+        return ModFn.block(self, stmts, env, k)
+
+    def emit(self):
+        body = [s for s in self.node.body if not (isinstance(s, ast.Expr) and isinstance(s.value, ast.Constant))]
+        # the table itself: return { "name": f"...", "name": _aN(n), ... }
+        if len(body) == 1 and isinstance(body[0], ast.Return) and isinstance(body[0].value, ast.Dict):
+            d = body[0].value
+            rows = []
+            for kx, vx in zip(d.keys, d.values):
+                if not (isinstance(kx, ast.Constant) and isinstance(kx.value, str) and kx.value.isalnum()): bad(kx, "table key")
+                if isinstance(vx, ast.Call):
+                    fn = self.module_call(vx)
+                    if fn is None or len(vx.args) != 1: bad(vx, "table entry call")
+                    a, ta, ga = self.expr(vx.args[0], set())
+                    if ta != Z or ga: bad(vx, "table entry argument")
+                    val = "(%s %s)" % (fn.coq, a)
+                else:
+                    c, t, g = self.expr(vx, set())
+                    if t != STR: bad(vx, "table entry must be an f-string")
+                    val = "FRet %s" % c
+                    for gb, o in reversed(g):
+                        val = "(if %s then %s else F%s)" % (gb, val, o)
+                rows.append('("%s"%%string, %s)' % (kx.value, val))
+            self.pure, self.ret = True, ("table",)
+            ps = " ".join("(v_%s : Z)" % n for n in self.params)
+            return "Definition %s %s : list (string * fres pystr) :=\n  [%s]." % (self.coq, ps, ";\n   ".join(rows))
+        return ModFn.emit(self)
+
+
+class TableTranslator:
+    def __init__(self, repo):
+        self.path = os.path.join(repo, "src", "paulie", "common", "two_local_generators.py")
+        self.tree = ast.parse(open(self.path, newline=None, encoding="utf-8-sig").read())
+        self.enums, self.exns, self.fns = {}, [], {}
+        self.defs = {n.name: n for n in self.tree.body if isinstance(n, ast.FunctionDef)}
+        g = [n for n in self.tree.body if isinstance(n, ast.AnnAssign) and isinstance(n.target, ast.Name) and n.target.id == "G_LIE"]
+        if len(g) != 1 or not isinstance(g[0].value, ast.Dict): raise Unsupported("G_LIE is no longer a dictionary literal")
+        self.glie = g[0].value
+
+    def run(self):
+        out = ["(* GENERATED by tools/py2coq.py from src/paulie/common/two_local_generators.py — do not edit *)",
+               "From PauLieRefine Require Import PySem.", "From PauLie Require Import Pauli.", "Open Scope Z_scope.", ""]
+        rows = []
+        for kx, vx in zip(self.glie.keys, self.glie.values):
+            if not (isinstance(kx, ast.Constant) and isinstance(kx.value, str) and kx.value.isalnum()): bad(kx, "G_LIE key")
+            if not (isinstance(vx, ast.List) and all(isinstance(x, ast.Constant) and isinstance(x.value, str) and x.value and set(x.value) <= set("IXYZ") for x in vx.elts)):
+                bad(vx, "G_LIE entry must be a list of IXYZ strings")
+            rows.append('("%s"%%string, [%s])' % (kx.value, "; ".join("[" + "; ".join("P" + ch for ch in x.value) + "]" for x in vx.elts)))
+        out.append("(* G_LIE: generators of the named two-local families *)\nDefinition py_T_G_LIE : list (string * list pstr) :=\n  [%s].\n" % ";\n   ".join(rows))
+        names = [n.name for n in self.tree.body if isinstance(n, ast.FunctionDef) and n.name.startswith("_a")] + ["two_local_algebras"]
+        for name in names:
+            f = TableFn(self, self.defs[name])
+            self.fns[name] = f
+            out.append(f.emit()); out.append("")
+        return "\n".join(out)
+
+
 def main():
     repo, dst = sys.argv[1], sys.argv[2]
     which = sys.argv[3] if len(sys.argv) > 3 else "classification"
-    path = os.path.join(repo, "src", "paulie", {"classification": "classifier/classification.py", "compiler": "application/pauli_compiler.py", "pstring": "common/pauli_string_bitarray.py", "collection": "common/pauli_string_collection.py", "parser": "common/pauli_string_parser.py"}[which])
+    path = os.path.join(repo, "src", "paulie", {"classification": "classifier/classification.py", "compiler": "application/pauli_compiler.py", "pstring": "common/pauli_string_bitarray.py", "collection": "common/pauli_string_collection.py", "parser": "common/pauli_string_parser.py", "table": "common/two_local_generators.py"}[which])
     try:
-        text = Translator(path).run() if which == "classification" else (CompTranslator(repo).run() if which == "compiler" else (PSTranslator(repo).run() if which == "pstring" else (CollTranslator(repo).run() if which == "collection" else ParserTranslator(repo).run())))
+        text = Translator(path).run() if which == "classification" else (CompTranslator(repo).run() if which == "compiler" else (PSTranslator(repo).run() if which == "pstring" else (CollTranslator(repo).run() if which == "collection" else (ParserTranslator(repo).run() if which == "parser" else TableTranslator(repo).run()))))
     except Unsupported as e:
         print("py2coq: cannot translate %s: %s" % (path, e)); sys.exit(3)
     with open(dst, "w") as f:
